@@ -814,6 +814,10 @@ class Transaction:
 
         try:
 
+            if tx._inputs:
+                # pre-chosen inputs must not be picked a second time by the coin selection below
+                await ledger.reserve_outputs([txi.txo_ref.txo for txi in tx._inputs])
+
             for _ in range(5):
 
                 if payment < cost:
